@@ -22,9 +22,11 @@ def secret_handles(rows, evs):
     """value handles of characteristics that the client may neither read nor write under any link
     state in force during the history"""
     states = {(e, a) for (e, a, _c) in U.link_states(evs)} | {(False, False)}
+    # characteristics a hook of the application assigns itself are not compared (C08_non_interference: acts_avoid)
+    assigned = {a[0] + 1 for e in evs for a in (e.get("acts") or {}).values()}
     out = []
     for r in rows:
-        if r["kind"] != "KValue":
+        if r["kind"] != "KValue" or r["handle"] in assigned:
             continue
         if any(U.may_read(r, e, a) or U.may_write(r, e, a) for e, a in states):
             continue
@@ -65,9 +67,10 @@ def oracle_case(spec, evs, res, twin_res, secret):
     for k, (ev, st) in enumerate(zip(evs, res["steps"])):
         enc, auth, conn = links[k]
         if ev["op"] == "req" and conn:
+            assigned = {a[0] + 1 for a in (ev.get("acts") or {}).values()}
             for h, v in st["vals"].items():
                 row = by_h.get(int(h))
-                if row is not None and row["kind"] == "KValue" and not U.may_write(row, enc, auth):
+                if row is not None and row["kind"] == "KValue" and int(h) not in assigned and not U.may_write(row, enc, auth):
                     bad.append((k, "value of handle %s changed by %s although the characteristic is not writable over this link "
                                    "(props 0x%02x, security 0x%02x, encrypted=%s, authenticated=%s)"
                                 % (h, ev["req"][0], row["props"], row["sec"], enc, auth), "unchanged", v))
@@ -87,14 +90,17 @@ def oracle_case(spec, evs, res, twin_res, secret):
             sub = {}
         for p in st["out"]:
             b = bytes.fromhex(p)
-            if b and b[0] in (0x1b, 0x1d) and ev["op"] != "req":
+            if b and b[0] in (0x1b, 0x1d):
+                # sent by the application's write or, inside a request, by a hook that updates a characteristic;
+                # checked against the subscription state AFTER the step (a 'subscribed' hook may update at once)
+                if ev["op"] == "req" and not ev.get("acts"):
+                    bad.append((k, "notification/indication emitted while answering a request whose hooks update nothing", "no PDU", p))
+                    continue
                 vh = struct.unpack("<H", b[1:3])[0]
                 want = 1 if b[0] == 0x1b else 2
                 if not conn or sub.get(vh - 1) != want:
                     bad.append((k, "%s for handle %d sent although the client is not subscribed (connected=%s, subscription=%r)"
                                 % ("notification" if want == 1 else "indication", vh, conn, sub.get(vh - 1)), "no PDU", p))
-            elif b and b[0] in (0x1b, 0x1d):
-                bad.append((k, "notification/indication emitted while answering a request", "no PDU", p))
     return bad
 
 
@@ -102,9 +108,10 @@ def gen_cases(ctx, n):
     rng, cases = ctx.rng, []
     for i in range(n):
         spec = U.gen_profile(rng, small=(i % 3 == 0))
-        g = U.HistoryGen(rng, U.flatten(spec), hooks_p=0.2 if i % 3 else 0.0, allow_raise=(i % 5 == 0), link_events=True)
+        g = U.HistoryGen(rng, U.flatten(spec), hooks_p=0.2 if i % 3 else 0.0, allow_raise=(i % 10 == 0), link_events=True)
         n = rng.randrange(8, 28)
-        cases.append((spec, g.sub_history(n) if i % 4 == 1 else g.exec_history(n) if i % 4 == 2 else g.history(n)))
+        cases.append((spec, g.sub_history(n) if i % 5 == 1 else g.exec_history(n) if i % 5 == 2
+                      else g.hook_history(n) if i % 5 == 3 else g.history(n)))
     return cases
 
 
